@@ -248,13 +248,21 @@ fn main() -> ! {
         for pair in pairs {
             match pair.as_rule() {
                 Rule::statement => {
-                    if let Some(inner_pair) = pair.into_inner().next() {
+                    let mut statement_pairs = pair.into_inner();
+                    if let Some(inner_pair) = statement_pairs.next() {
+                        // An end-of-line comment after the statement, if any
+                        let eol_comment = statement_pairs
+                            .next()
+                            .filter(|p| p.as_rule() == Rule::comment)
+                            .map(|p| format!("  {}", p.as_str()))
+                            .unwrap_or_default();
                         match inner_pair.as_rule() {
                             Rule::expression => {
                                 match pairs_to_expr_with_comments(inner_pair.into_inner()) {
                                     Ok(expr) => {
                                         let formatted = format_expr(&expr, None);
                                         formatted_output.push_str(&formatted);
+                                        formatted_output.push_str(&eol_comment);
                                         formatted_output.push('\n');
                                     }
                                     Err(e) => {
@@ -272,6 +280,7 @@ fn main() -> ! {
                                         });
                                         let formatted = format_expr(&output_expr, None);
                                         formatted_output.push_str(&formatted);
+                                        formatted_output.push_str(&eol_comment);
                                         formatted_output.push('\n');
                                     }
                                     Err(e) => {
